@@ -242,6 +242,11 @@ class _Canon(ast.NodeTransformer):
             n.body, n.orelse = n.orelse, n.body
         return n
 
+    def visit_comprehension(self, n):
+        self.generic_visit(n)
+        n.ifs = [self._test(i) for i in n.ifs]
+        return n
+
     def visit_Assert(self, n):
         self.generic_visit(n)
         n.test = self._test(n.test)
